@@ -10,5 +10,6 @@ for c in "$@"; do
   VERIF_REPO="$W/repo" VERIF_BUILD="$W/build" VERIF_OUT="$W/out" /verif/check "$c" --tier quick > "$W/$c.log" 2>&1; rc=$?
   echo "== $c exit=$rc: $(grep -c '^VIOLATION' "$W/$c.log") violation lines"; grep -A3 '^VIOLATION' "$W/$c.log" | grep -E 'signature|case|detail' | head -9
   tail -1 "$W/$c.log" | cut -c1-200
+  [ $rc -ge 2 ] && grep -E 'ENGINE|engine|died|nondeterministic|Traceback' "$W/$c.log" | head -5
 done
 git -C /repo worktree remove --force "$W/repo"; rm -rf "$W"
